@@ -6,6 +6,8 @@ import (
 	"math/rand"
 
 	enc "github.com/named-data/ndnd/std/encoding"
+	"github.com/named-data/ndnd/std/engine/basic"
+	"github.com/named-data/ndnd/std/object"
 
 	"verif/internal/gen"
 	"verif/internal/h"
@@ -121,6 +123,9 @@ func c14Run(c *h.Ctx) {
 			continue
 		}
 		c14Laws(c, id, a, b, d)
+		if i%4 == 0 {
+			c14Tables(c, id, a, b)
+		}
 	}
 	// --- URI round trip
 	nURI := c.Pick(12000, 600000)
@@ -219,6 +224,65 @@ func c14Laws(c *h.Ctx, id string, a, b, d enc.Name) {
 		c.Violation("C14:law:hash-equal", id, "a deep copy hashes differently", det())
 	}
 	c.Sample(map[string]any{"kind": "law", "a": a.String(), "b": b.String(), "compare": cab, "equal": eab, "isprefix": pab})
+}
+
+// c14Tables: the name-keyed tables anchored in this property (object memory store, engine name
+// trie) key on the component strings; two distinct names (inside the URI round-trip domain, which
+// is all the generator produces) must never be conflated by them and equal names must meet.
+func c14Tables(c *h.Ctx, id string, a, b enc.Name) {
+	if len(a) == 0 || len(b) == 0 {
+		return
+	}
+	same := refNameCompare(a, b) == 0
+	det := func() any { return map[string]any{"a": nameDesc(a), "b": nameDesc(b)} }
+	wa, wb := []byte("A:"+id), []byte("B:"+id)
+	var ga1, gb1, ga2, gb2 []byte
+	var trieSame, trieFound bool
+	var va, vb int
+	if pi := h.Guard(func() {
+		st := object.NewMemoryStore()
+		st.Put(a.Clone(), 1, wa)
+		st.Put(b.Clone(), 1, wb)
+		ga1, _ = st.Get(a, false)
+		gb1, _ = st.Get(b, false)
+		st.Remove(a, false)
+		ga2, _ = st.Get(a, false)
+		gb2, _ = st.Get(b, false)
+		tr := basic.NewNameTrie[int]()
+		na := tr.MatchAlways(a.Clone())
+		na.SetValue(1)
+		nb := tr.MatchAlways(b.Clone())
+		if !same {
+			nb.SetValue(2)
+		}
+		trieSame = na == nb
+		xa, xb := tr.ExactMatch(a), tr.ExactMatch(b)
+		trieFound = xa != nil && xb != nil
+		if trieFound {
+			va, vb = xa.Value(), xb.Value()
+		}
+	}); pi != nil {
+		c.Violation("C14:panic:tables:"+pi.Frame+":"+pi.Class, id, "name-keyed table panicked: "+pi.Value, det())
+		return
+	}
+	c.Count("table_pairs", 1)
+	if same {
+		if !bytes.Equal(ga1, wb) || !bytes.Equal(gb1, wb) || ga2 != nil || gb2 != nil {
+			c.Violation("C14:store-splits-equal-names", id, "memory store treats two equal names as different keys", det())
+		}
+		if !trieSame {
+			c.Violation("C14:trie-splits-equal-names", id, "name trie has two nodes for equal names", det())
+		}
+		return
+	}
+	if !bytes.Equal(ga1, wa) || !bytes.Equal(gb1, wb) {
+		c.Violation("C14:store-conflates-names", id, fmt.Sprintf("memory store: after Put(a,A) Put(b,B) with a != b, Get(a)=%q Get(b)=%q", ga1, gb1), det())
+	} else if ga2 != nil || !bytes.Equal(gb2, wb) {
+		c.Violation("C14:store-conflates-names", id, fmt.Sprintf("memory store: after Remove(a) with a != b, Get(a)=%q Get(b)=%q", ga2, gb2), det())
+	}
+	if trieSame || !trieFound || va != 1 || vb != 2 {
+		c.Violation("C14:trie-conflates-names", id, fmt.Sprintf("name trie: distinct names share a node or are not found (same node=%v found=%v values %d,%d)", trieSame, trieFound, va, vb), det())
+	}
 }
 
 func c14URI(c *h.Ctx, id string, n enc.Name) {
